@@ -577,10 +577,7 @@ func runE2EModel(t *rapid.T, focus string) {
 	if err := srv.start(); err != nil {
 		t.Skip("inconclusive: standalone does not start: " + err.Error())
 	}
-	defer func() {
-		time.Sleep(30 * time.Millisecond) // see the restart step
-		srv.stop()
-	}()
+	defer srv.shutdown()
 	var copts []oxia.ClientOption
 	copts = append(copts, oxia.WithRequestTimeout(8*time.Second))
 	if rapid.Bool().Draw(t, "linger") {
@@ -653,9 +650,7 @@ func runE2EModel(t *rapid.T, focus string) {
 			}
 			restarted = true
 			c.logf("server restart")
-			time.Sleep(30 * time.Millisecond) // let the read goroutines of the server finish closing their iterators
-			srv.stop()
-			if err := srv.start(); err != nil {
+			if err := srv.restart(); err != nil {
 				t.Skip("inconclusive: standalone does not restart: " + err.Error())
 			}
 			// the client's connection is in back-off right after the restart, and list / range-scan are not retried:
